@@ -831,6 +831,48 @@ fn c11(args: &Args) -> Report {
             r.sample(json!({"op":"find_buf","a":"a.a","b":".a\\0","raw_second":true}));
             r
         }));
+        let np = if args.thorough { 4 } else { 3 };
+        items.push(isolated("multi-byte-characters", move || {
+            // operands built from characters that share lead bytes (é/è: c3 a9 / c3 a8, €/₭: e2 82 ac / e2 82 ad) so that two
+            // operands can part ways INSIDE a character; receivers also cut at every byte (a path need not be UTF-8), the
+            // `&str` operand is always whole characters
+            let mut r = Report::new();
+            let mut pl = Placed { a: GuardArena::new(2), b: GuardArena::new(2) };
+            let pieces: [&[u8]; 5] = [b"a", "é".as_bytes(), "è".as_bytes(), "€".as_bytes(), "₭".as_bytes()];
+            let mut words: Vec<Vec<u8>> = vec![Vec::new()];
+            let mut frontier: Vec<Vec<u8>> = vec![Vec::new()];
+            for _ in 0..np {
+                let mut next = Vec::new();
+                for w in &frontier {
+                    for p in pieces {
+                        let mut v = w.clone();
+                        v.extend_from_slice(p);
+                        next.push(v);
+                    }
+                }
+                words.extend(next.iter().cloned());
+                frontier = next;
+            }
+            let mut receivers: Vec<Vec<u8>> = Vec::new();
+            for w in &words {
+                for cut in 0..=w.len() {
+                    receivers.push(w[..cut].to_vec());
+                }
+            }
+            receivers.sort();
+            receivers.dedup();
+            for a in &receivers {
+                for b in &words {
+                    // only pairs with a non-ASCII byte somewhere (the ASCII ones are the exhaustive pairs above)
+                    if a.iter().chain(b.iter()).all(|x| x.is_ascii()) {
+                        continue;
+                    }
+                    c11_raw_second(&mut pl, a, b, true, &mut r);
+                }
+            }
+            r.sample(json!({"op":"match_up_to_str","a":"caf\\xc3\\xa9","b":"caf\\xc3\\xa8","raw_second":true}));
+            r
+        }));
         let lmax = if args.thorough { 1100 } else { 200 };
         items.push(isolated("length-ladder", move || {
             let mut r = Report::new();
